@@ -436,31 +436,68 @@ class Shadows:
 
 
 class Stats:
+    FIELDS = ("paths", "queries", "decisions", "truncated", "inconclusive", "infeasible", "obligations", "discharged",
+              "nontrivial", "cache_hits")
+
     def __init__(self):
-        self.paths = self.queries = self.decisions = self.truncated = self.inconclusive = 0
-        self.infeasible = 0
+        for f in self.FIELDS:
+            setattr(self, f, 0)
         self.solver_s = 0.0
-        self.obligations = self.discharged = 0
+
+    def as_dict(self):
+        d = {f: getattr(self, f) for f in self.FIELDS}
+        d["solver_s"] = self.solver_s
+        return d
 
 
 class Finding:
-    def __init__(self, label, assignment, detail=""):
-        self.label, self.assignment, self.detail = label, assignment, detail
+    def __init__(self, label, assignment, detail="", known=None):
+        self.label, self.assignment, self.detail, self.known = label, assignment, detail, known
 
     def __repr__(self):
-        return f"Finding({self.label}, {self.assignment}, {self.detail})"
+        return f"Finding({self.label}, {self.assignment}, {self.detail}, known={self.known})"
+
+
+def model_value(v):
+    if z3.is_int_value(v):
+        return v.as_long()
+    if z3.is_rational_value(v):
+        return fractions.Fraction(v.numerator_as_long(), v.denominator_as_long())
+    if z3.is_true(v) or z3.is_false(v):
+        return z3.is_true(v)
+    if z3.is_algebraic_value(v):
+        return fractions.Fraction(v.approx(20).numerator_as_long(), v.approx(20).denominator_as_long())
+    return str(v)
+
+
+def evaluate(model, x):
+    """Value of a (possibly symbolic, possibly nested) result under a model: ordinary Python data."""
+    if isinstance(x, (SymNum, SymBool)):
+        return model_value(model.eval(x.t, model_completion=True))
+    if hasattr(x, "items") and hasattr(x, "kind") and isinstance(x, Sym):      # SymSeq
+        vals = [c if isinstance(c, int) else model_value(model.eval(c, model_completion=True)) for c in x.items]
+        return bytes(vals) if x.kind == "bytes" else "".join(map(chr, vals))
+    if isinstance(x, tuple) and hasattr(x, "_fields"):
+        return tuple(evaluate(model, y) for y in x)
+    if isinstance(x, (list, tuple)):
+        return type(x)(evaluate(model, y) for y in x)
+    if isinstance(x, dict):
+        return {evaluate(model, k): evaluate(model, v) for k, v in x.items()}
+    return x
 
 
 class Explorer:
-    """Runs `fn(ctx)` over all feasible paths."""
+    """Runs `fn(ctx)` over all feasible paths (DFS over decision prefixes; the harness is re-executed per path)."""
 
-    def __init__(self, timeout_ms=10000, concretize_cap=64, max_paths=200000):
+    def __init__(self, timeout_ms=10000, concretize_cap=64, known=()):
         self.stats = Stats()
-        self.timeout_ms, self.cap, self.max_paths = timeout_ms, concretize_cap, max_paths
+        self.timeout_ms, self.cap = timeout_ms, concretize_cap
         self.findings = []
-        self.witness = {}  # label -> assignment reaching it
-        self.path_models = []  # (assignment, observations) per completed path
+        self.witness = {}      # label -> assignment reaching it
+        self.path_models = []  # (assignment, evaluated observations) per completed path
         self.vars = {}
+        self.known = list(known)   # known-finding regions applicable to this harness: dicts with label, region, id
+        self.errors = []
 
     # -- solver helpers --------------------------------------------------------------
     def _check(self, *extra):
@@ -468,18 +505,35 @@ class Explorer:
         self.stats.queries += 1
         r = self.solver.check(*extra)
         self.stats.solver_s += time.time() - t
-        return str(r)
+        r = str(r)
+        if r == "sat" and not extra:
+            self.model = self.solver.model()
+        return r
 
     def add(self, *c):
         self.solver.add(*c)
+        if self.model is not None:
+            for x in c:
+                if not z3.is_true(self.model.eval(x, model_completion=True)):
+                    self.model = None
+                    break
 
     def fresh_int(self, prefix):
         self._fresh += 1
-        v = z3.Int(f"_{prefix}{self._fresh}")
-        return v
+        return z3.Int(f"_{prefix}{self._fresh}")
+
+    def fresh_real(self, prefix):
+        self._fresh += 1
+        return z3.Real(f"_{prefix}{self._fresh}")
 
     def declare(self, name, var):
         self.vars[name] = var
+
+    def current_model(self):
+        if self.model is None:
+            if self._check() != "sat":
+                return None
+        return self.model
 
     def branch(self, cond):
         cond = z3.simplify(cond)
@@ -491,11 +545,32 @@ class Explorer:
         if i < len(self.prefix):
             d = self.prefix[i]
         else:
-            rt = self._check(cond)
-            rf = self._check(z3.Not(cond))
-            if "unknown" in (rt, rf):
-                self.stats.inconclusive += 1
-            can_t, can_f = rt != "unsat", rf != "unsat"
+            # the cached model of the path condition decides one side for free
+            side = None
+            m = self.model
+            if m is not None:
+                v = m.eval(cond, model_completion=True)
+                if z3.is_true(v):
+                    side = True
+                elif z3.is_false(v):
+                    side = False
+            if side is None:
+                rt = self._check(cond)
+                if rt == "sat":
+                    keep = self.solver.model()
+                rf = self._check(z3.Not(cond))
+                if "unknown" in (rt, rf):
+                    self.stats.inconclusive += 1
+                can_t, can_f = rt != "unsat", rf != "unsat"
+                self.model = keep if rt == "sat" else None
+            else:
+                self.stats.cache_hits += 1
+                ro = self._check(z3.Not(cond) if side else cond)
+                if ro == "unknown":
+                    self.stats.inconclusive += 1
+                can_t = side or ro != "unsat"
+                can_f = (not side) or ro != "unsat"
+                self.model = m     # still a model of the path condition; valid for the side it satisfies
             if can_t and can_f:
                 self.work.append(self.trace + [False])
                 d = True
@@ -507,7 +582,10 @@ class Explorer:
                 raise Abort()
         self.trace.append(d)
         self.stats.decisions += 1
-        self.solver.add(cond if d else z3.Not(cond))
+        c = cond if d else z3.Not(cond)
+        self.solver.add(c)
+        if self.model is not None and not z3.is_true(self.model.eval(c, model_completion=True)):
+            self.model = None
         return d
 
     def concretize(self, t):
@@ -516,21 +594,23 @@ class Explorer:
         if z3.is_int_value(t):
             return t.as_long()
         for _ in range(self.cap):
-            if self._check() != "sat":
+            m = self.current_model()
+            if m is None:
                 raise Abort()
-            v = self.solver.model().eval(t, model_completion=True)
+            v = m.eval(t, model_completion=True)
             if self.branch(t == v):
                 return v.as_long()
-        raise HarnessError(f"concretisation cap exceeded for {t}")
+        raise HarnessError(f"BOUND-EXCEEDED: concretisation cap {self.cap} exceeded for {t}")
 
     def pinned(self, t):
         """If term t can take only one value on this path, return it as a z3 numeral (else None)."""
         t = z3.simplify(t)
         if z3.is_rational_value(t) or z3.is_int_value(t):
             return t
-        if self._check() != "sat":
+        m = self.current_model()
+        if m is None:
             return None
-        v = self.solver.model().eval(t, model_completion=True)
+        v = m.eval(t, model_completion=True)
         if not (z3.is_rational_value(v) or z3.is_int_value(v)):
             return None
         return v if self._check(t != v) == "unsat" else None
@@ -553,7 +633,7 @@ class Explorer:
                 le, ge = (a <= c * b, a >= c * b) if flip == 1 else (a >= c * b, a <= c * b)
                 facts.append(z3.Implies(z3.And(sgn_b, le), q <= c))
                 facts.append(z3.Implies(z3.And(sgn_b, ge), q >= c))
-        self.solver.add(*facts)
+        self.add(*facts)
         return q
 
     def injective_hash(self, t):
@@ -566,30 +646,24 @@ class Explorer:
 
     # -- model extraction -------------------------------------------------------------
     def assignment(self, model):
-        out = {}
-        for name, var in self.vars.items():
-            v = model.eval(var, model_completion=True)
-            if z3.is_int_value(v):
-                out[name] = v.as_long()
-            elif z3.is_rational_value(v):
-                out[name] = fractions.Fraction(v.numerator_as_long(), v.denominator_as_long())
-            elif z3.is_true(v) or z3.is_false(v):
-                out[name] = z3.is_true(v)
-            else:
-                out[name] = str(v)
-        return out
+        return {name: model_value(model.eval(var, model_completion=True)) for name, var in self.vars.items()}
 
     # -- main loop --------------------------------------------------------------------
-    def run(self, fn, **kw):
+    def run(self, fn, cfg=None, prefixes=None, budget_paths=None, budget_s=None, tracer=None):
+        """Explore from the given decision prefixes; returns the prefixes left unexplored when a budget ran out."""
         global CUR
-        self.work = [[]]
+        cfg = cfg or {}
+        self.work = [list(p) for p in (prefixes if prefixes is not None else [[]])]
+        t0 = time.time()
+        done = 0
         while self.work:
-            if self.stats.paths >= self.max_paths:
-                raise HarnessError("max_paths exceeded")
+            if (budget_paths is not None and done >= budget_paths) or (budget_s is not None and time.time() - t0 > budget_s):
+                break
             self.prefix = self.work.pop()
             self.trace = []
             self.solver = z3.Solver()
             self.solver.set("timeout", self.timeout_ms)
+            self.model = None
             self._fresh = 0
             self._hashed = []
             self._quot = {}
@@ -598,18 +672,50 @@ class Explorer:
             self.vars = {}
             ctx = SymCtx(self)
             CUR = self
+            done += 1
             try:
-                fn(ctx, **kw)
+                if tracer is not None and self.stats.paths < 2:
+                    with tracer:
+                        fn(ctx, **cfg)
+                else:
+                    fn(ctx, **cfg)
                 self.stats.paths += 1
-                if self._check() == "sat":
-                    self.path_models.append((self.assignment(self.solver.model()), list(ctx.observed)))
+                m = self.current_model()
+                if m is not None:
+                    self.path_models.append((self.assignment(m), [(l, evaluate(m, v)) for l, v in ctx.observed]))
             except Abort:
                 self.stats.infeasible += 1
             except BoundExceeded:
                 self.stats.truncated += 1
             finally:
                 CUR = None
-        return self
+        left, self.work = self.work, []
+        return left
+
+
+def _boolterm(c):
+    return z3.BoolVal(c) if isinstance(c, builtins.bool) else lift(c)
+
+
+class _RegionNS(dict):
+    """Namespace in which a known-finding region expression is evaluated (z3 terms or concrete values)."""
+
+    def __init__(self, symbolic, values):
+        super().__init__(values)
+        if symbolic:
+            self.update(And=z3.And, Or=z3.Or, Not=z3.Not, Implies=z3.Implies)
+        else:
+            self.update(And=lambda *a: builtins.all(a), Or=lambda *a: builtins.any(a), Not=lambda a: not a,
+                        Implies=lambda a, b: (not a) or builtins.bool(b))
+
+
+def region_holds(expr, values, symbolic=False):
+    """Evaluate a region expression; an undeclared variable means the region does not apply (None)."""
+    try:
+        return eval(expr, {"__builtins__": {"any": builtins.any, "all": builtins.all, "range": range, "len": builtins.len}},
+                    _RegionNS(symbolic, values))
+    except NameError:
+        return None
 
 
 class SymCtx:
@@ -618,6 +724,7 @@ class SymCtx:
     def __init__(self, ex):
         self.ex = ex
         self.observed = []
+        self.cfg_values = {}
 
     # inputs -------------------------------------------------------------------------
     def int(self, name, lo=None, hi=None):
@@ -653,27 +760,58 @@ class SymCtx:
 
     # assertions ---------------------------------------------------------------------
     def assume(self, cond):
-        c = lift(cond) if not isinstance(cond, builtins.bool) else z3.BoolVal(cond)
-        self.ex.add(c)
+        self.ex.add(_boolterm(cond))
         if self.ex._check() == "unsat":
             raise Abort()
 
-    def prove(self, cond, label):
+    def reach(self, label):
+        """Reachability witness without an obligation."""
+        ex = self.ex
+        if label not in ex.witness:
+            m = ex.current_model()
+            if m is not None:
+                ex.witness[label] = ex.assignment(m)
+
+    def prove(self, cond, label, detail=""):
         ex = self.ex
         ex.stats.obligations += 1
-        if label not in ex.witness and ex._check() == "sat":
-            ex.witness[label] = ex.assignment(ex.solver.model())
-        c = z3.BoolVal(cond) if isinstance(cond, builtins.bool) else lift(cond)
-        r = ex._check(z3.Not(c))
-        if r == "sat" and ex.exact_defs:
-            r = ex._check(z3.Not(c), *ex.exact_defs)      # refine: the abstraction of a/b made exact
-        if r == "unsat":
-            ex.stats.discharged += 1
-            return True
-        if r == "unknown":
-            ex.stats.inconclusive += 1
-            return None
-        ex.findings.append(Finding(label, ex.assignment(ex.solver.model())))
+        self.reach(label)
+        c = _boolterm(cond)
+        if not z3.is_true(z3.simplify(c)):
+            ex.stats.nontrivial += 1
+        extra = []
+        for _ in range(8):
+            r = ex._check(z3.Not(c), *extra)
+            if r == "sat" and ex.exact_defs:
+                r = ex._check(z3.Not(c), *(extra + ex.exact_defs))      # refine: the abstraction of a/b made exact
+            if r == "unsat":
+                if not extra:
+                    ex.stats.discharged += 1
+                return not extra
+            if r == "unknown":
+                ex.stats.inconclusive += 1
+                return None
+            m = ex.solver.model()
+            a = ex.assignment(m)
+            det = detail(m) if callable(detail) else detail
+            hit = None
+            for kf in ex.known:
+                if label.startswith(kf["label"]) and kf.get("region"):
+                    vals = dict(a)
+                    vals.update(self.cfg_values)
+                    if region_holds(kf["region"], vals) is True:
+                        hit = kf
+                        break
+            ex.findings.append(Finding(label, a, det, known=hit["id"] if hit else None))
+            if hit is None:
+                return False
+            # inside a known region: look for a different counterexample outside it
+            zvals = dict(ex.vars)
+            zvals.update(self.cfg_values)
+            reg = region_holds(hit["region"], zvals, symbolic=True)
+            if reg is None or isinstance(reg, builtins.bool):
+                return False
+            extra.append(z3.Not(reg))
         return False
 
     def observe(self, label, value):
@@ -682,19 +820,21 @@ class SymCtx:
     # term helpers (work in both modes) ----------------------------------------------
     @staticmethod
     def all(items):
-        items = [lift(x) if not isinstance(x, builtins.bool) else z3.BoolVal(x) for x in items]
+        items = [_boolterm(x) for x in items]
         return SymBool(z3.And(*items)) if items else True
 
     @staticmethod
     def any(items):
-        items = [lift(x) if not isinstance(x, builtins.bool) else z3.BoolVal(x) for x in items]
+        items = [_boolterm(x) for x in items]
         return SymBool(z3.Or(*items)) if items else False
 
     @staticmethod
     def implies(a, b):
-        la = z3.BoolVal(a) if isinstance(a, builtins.bool) else lift(a)
-        lb = z3.BoolVal(b) if isinstance(b, builtins.bool) else lift(b)
-        return SymBool(z3.Implies(la, lb))
+        return SymBool(z3.Implies(_boolterm(a), _boolterm(b)))
+
+    @staticmethod
+    def neg(a):
+        return SymBool(z3.Not(_boolterm(a)))
 
     @staticmethod
     def ite(c, a, b):
@@ -706,9 +846,26 @@ class SymCtx:
     @staticmethod
     def eq(a, b):
         """Equality as a term (no fork)."""
+        if hasattr(a, "eq_term"):
+            return SymBool(a.eq_term(b))
+        if hasattr(b, "eq_term"):
+            return SymBool(b.eq_term(a))
+        if isinstance(a, (tuple, list)) and isinstance(b, (tuple, list)):
+            if len(a) != len(b):
+                return False
+            return SymCtx.all([SymCtx.eq(x, y) for x, y in zip(a, b)])
         if is_sym(a) or is_sym(b):
+            if not (isinstance(a, (Sym, int, float, fractions.Fraction)) and isinstance(b, (Sym, int, float, fractions.Fraction))):
+                return False
+            if isinstance(a, SymBool) or isinstance(b, SymBool):
+                return SymBool(_boolterm(a) == _boolterm(b))
             x, y = _coerce(a, b)
             return SymBool(x == y)
+        if isinstance(a, float) or isinstance(b, float):
+            try:
+                return fractions.Fraction(a) == fractions.Fraction(b)
+            except (TypeError, ValueError):
+                return a == b
         return a == b
 
     max = staticmethod(sym_max)
@@ -721,6 +878,34 @@ class SymCtx:
             r = r + x
         return r
 
+    @staticmethod
+    def div(a, b):
+        """Exact a/b (b a concrete non-zero int)."""
+        if is_sym(a):
+            return a / b
+        return fractions.Fraction(a) / b
+
+    @staticmethod
+    def trunc(x):
+        """Truncation toward zero of a real-valued term (Python int())."""
+        if isinstance(x, SymReal):
+            return SymInt(z3.If(x.t >= 0, z3.ToInt(x.t), -z3.ToInt(-x.t)))
+        if is_sym(x):
+            return x
+        return builtins.int(x)
+
+
+def _tol_eq(a, b):
+    if isinstance(a, (tuple, list)) and isinstance(b, (tuple, list)):
+        return len(a) == len(b) and builtins.all(_tol_eq(x, y) for x, y in zip(a, b))
+    num = (int, float, fractions.Fraction)
+    if isinstance(a, num) and isinstance(b, num) and not isinstance(a, builtins.bool) and not isinstance(b, builtins.bool):
+        if isinstance(a, float) or isinstance(b, float):
+            fa, fb = builtins.float(a), builtins.float(b)
+            return fa == fb or builtins.abs(fa - fb) <= 1e-9 * builtins.max(builtins.abs(fa), builtins.abs(fb), 1e-300) + 1e-12
+        return a == b
+    return a == b
+
 
 class ConcreteCtx:
     """Same interface, ordinary Python values taken from an assignment."""
@@ -730,7 +915,9 @@ class ConcreteCtx:
     def __init__(self, assignment):
         self.a = assignment
         self.failed = []
+        self.details = {}
         self.observed = []
+        self.cfg_values = {}
 
     # a variable declared after the model was taken was unconstrained then: any in-range value will do
     def int(self, name, lo=None, hi=None):
@@ -751,9 +938,13 @@ class ConcreteCtx:
         if not cond:
             raise Abort()
 
-    def prove(self, cond, label):
+    def reach(self, label):
+        pass
+
+    def prove(self, cond, label, detail=""):
         if not cond:
             self.failed.append(label)
+            self.details[label] = detail(None) if callable(detail) else detail
         return builtins.bool(cond)
 
     def observe(self, label, value):
@@ -762,8 +953,17 @@ class ConcreteCtx:
     all = staticmethod(lambda items: builtins.all(items))
     any = staticmethod(lambda items: builtins.any(items))
     implies = staticmethod(lambda a, b: (not a) or builtins.bool(b))
+    neg = staticmethod(lambda a: not a)
     ite = staticmethod(lambda c, a, b: a if c else b)
-    eq = staticmethod(lambda a, b: a == b)
+    eq = staticmethod(_tol_eq)
     max = staticmethod(builtins.max)
     min = staticmethod(builtins.min)
     sum = staticmethod(lambda items: builtins.sum(items))
+
+    @staticmethod
+    def div(a, b):
+        return fractions.Fraction(a) / b
+
+    @staticmethod
+    def trunc(x):
+        return builtins.int(x)
